@@ -363,6 +363,88 @@ func outOf(p pac.Proxy) proxyOut {
 // schemeTable is the keyword ↦ scheme table of the property (Theorems/C14.lean c14_scheme_table).
 var schemeTable = map[string]string{"DIRECT": "-", "PROXY": "http", "HTTP": "http", "HTTPS": "https", "SOCKS": "socks", "SOCKS4": "socks4", "SOCKS5": "socks5"}
 
+// decPortOK: the port is a decimal number ≤ 65535 (one or more ASCII digits, leading zeros allowed),
+// evaluated without strconv.
+func decPortOK(p string) bool {
+	if p == "" {
+		return false
+	}
+	for _, ch := range []byte(p) {
+		if ch < '0' || ch > '9' {
+			return false
+		}
+	}
+	t := strings.TrimLeft(p, "0")
+	return len(t) < 5 || (len(t) == 5 && t <= "65535")
+}
+
+// portShape / hostShape classify the two halves of an address text (input histogram only).
+func portShape(p string) string {
+	switch {
+	case p == "":
+		return "empty"
+	case strings.ContainsAny(p, " \t"):
+		return "blank-or-tab"
+	case p[0] == '+' || p[0] == '-':
+		return "signed"
+	}
+	for _, ch := range []byte(p) {
+		if ch < '0' || ch > '9' {
+			return "non-numeric"
+		}
+	}
+	switch {
+	case !decPortOK(p) && len(p) > 7:
+		return "long-out-of-range"
+	case !decPortOK(p):
+		return "out-of-range-5to7-digits"
+	case len(p) > 1 && p[0] == '0':
+		return "leading-zeros"
+	case p == "65535":
+		return "65535"
+	}
+	return "ordinary"
+}
+
+func hostShape(h string) string {
+	switch {
+	case h == "":
+		return "empty"
+	case h == "[]":
+		return "empty-brackets"
+	case strings.ContainsAny(h, " \t"):
+		return "blank-or-tab"
+	case strings.HasPrefix(h, "[") && strings.HasSuffix(h, "]") && strings.Count(h, "[") == 1 && strings.Count(h, "]") == 1:
+		if strings.Contains(h, ":") {
+			return "ipv6-bracketed"
+		}
+		return "other-bracketed"
+	case strings.ContainsAny(h, "[]"):
+		return "broken-brackets"
+	case strings.Contains(h, ":"):
+		return "ipv6-unbracketed"
+	}
+	return "plain"
+}
+
+// countAddrShapes: which address shapes the result list holds (per entry with a blank after the first word).
+func countAddrShapes(ctx *core.Ctx, s string) {
+	for _, e := range strings.Split(s, ";") {
+		e = strings.TrimSpace(e)
+		_, addr, ok := strings.Cut(e, " ")
+		if !ok {
+			continue
+		}
+		i := strings.LastIndexByte(addr, ':')
+		if i < 0 {
+			ctx.Count("proxies/addr/no-colon")
+			continue
+		}
+		ctx.Count("proxies/addr/host=" + hostShape(addr[:i]))
+		ctx.Count("proxies/addr/port=" + portShape(addr[i+1:]))
+	}
+}
+
 func checkProxies(ctx *core.Ctx, c proxiesCase) {
 	s := unhexS(c.S)
 	var implAll, implFirst string
@@ -449,6 +531,19 @@ func checkProxies(ctx *core.Ctx, c proxiesCase) {
 			ctx.SpecFail("keyword ↦ scheme table (PROXY/HTTP→http, HTTPS→https, SOCKS→socks, SOCKS4→socks4, SOCKS5→socks5, DIRECT→no proxy)", "", c, impl, "")
 		}
 	}
+	countAddrShapes(ctx, s)
+	// evaluated directly on what the implementation returned (no model involved): an accepted entry has no
+	// address at all (DIRECT, empty entry) or a non-empty host without blank or tab and a decimal port ≤ 65535
+	for _, p := range all {
+		if p.Host == "" && p.Port == "" {
+			continue
+		}
+		if p.Host == "" || strings.ContainsAny(p.Host, " \t") || !decPortOK(p.Port) {
+			ctx.SpecFail("every accepted entry has a non-empty host without blank or tab and a port that is a decimal number ≤ 65535", "", c, impl,
+				fmt.Sprintf("returned proxy with host %q port %q", p.Host, p.Port))
+			break
+		}
+	}
 	if strict == "1" {
 		ctx.Count("proxies/well-formed")
 		if errAll != nil {
@@ -463,11 +558,13 @@ func checkProxies(ctx *core.Ctx, c proxiesCase) {
 		if errAll == nil && class == "unknown-keyword-direct" {
 			// an unrecognised keyword is treated as DIRECT: the documented behaviour (property C05 states it
 			// outright), so such an entry is not "malformed" in the sense of this clause; the mapping itself
-			// has been compared with the model above.
+			// has been compared with the model above.  The model reports this class only when the address
+			// part of every entry is well-formed (no/bad address takes precedence).
 			ctx.Count("proxies/unknown-keyword-treated-as-DIRECT")
 			ctx.TraceValidated()
 		} else if errAll == nil {
-			ctx.SpecFail("malformed entries are rejected", class, c, impl, "first entry outside the grammar '<keyword> <host>:<port>' | 'DIRECT': "+class)
+			// no-address / bad-address: no known-finding class any more (F30 repaired by 96a61a7)
+			ctx.SpecFail("malformed entries are rejected", "", c, impl, "an entry outside the grammar '<keyword> <host>:<port>' | 'DIRECT' (host non-empty without blank or tab, port a decimal number ≤ 65535) was accepted: "+class)
 		} else {
 			ctx.TraceValidated()
 		}
